@@ -427,9 +427,9 @@ loop:
 			t.steps = append(t.steps, tupleStep{index: e.Index})
 			x := ast.Unparen(e.X)
 			if typ := c.typeOf(x); typ != nil {
-				arr, ok := typ.Underlying().(*types.Array)
+				_, ok := typ.Underlying().(*types.Array)
 				_, isStar := x.(*ast.StarExpr)
-				if ok && !isByte(arr.Elem()) && !isStar {
+				if ok && !isStar {
 					// An element of an array is a part of
 					// whatever the array is a part of.
 					cur = x
